@@ -149,6 +149,7 @@ Fixpoint eval (rho : env) (e : expr) : eres :=
           let flat := match vs with
                       | [] => []
                       | [VArr a] => a                      (* a single array argument is spread *)
+                      | [VNil] => []                       (* makeFunctionStage: right == nil calls function() *)
                       | [v] => [v]
                       | v1 :: v2 :: tl =>
                           match fold_left sep tl (sep v1 v2) with VArr a => a | _ => [] end
